@@ -131,7 +131,7 @@ def build_runner(race=False):
     cmd = ["go", "build", "-tags", "verif", "-o", out]
     if race:
         cmd.append("-race")
-    if os.environ.get("VERIF_COVER"):
+    if os.environ.get("VERIF_COVER") and not race:
         # coverage probe (tools/cover.sh): which statements of the library the scenario sets reach; the runner
         # writes its counters to $GOCOVERDIR when it exits
         cmd += ["-cover", "-coverpkg=github.com/bufbuild/connect-go/..."]
